@@ -225,6 +225,8 @@ def trunc_of(ex, x):
 
 def call_builtin(ex, name, node, st):
     reg = ex.ctx.reg
+    if name.startswith("tracklib.") and name.split(".")[-1] in reg.index.classes:
+        return construct(ex, name.split(".")[-1], node, st)
     if name in reg.builtins:
         args, kwargs = eval_args(ex, node, st)
         return reg.builtins[name](ex, st, args, kwargs, node)
@@ -280,6 +282,8 @@ def call_builtin(ex, name, node, st):
     if name == "str":
         if is_intlike(args[0]):
             return strings.str_of_int(vint(to_int(args[0])))
+        if isinstance(args[0].kind, (KAny, KStr)):
+            return Val(STR, [strings.STR_OF_INT(args[0].terms[0])])      # opaque text of an opaque value
         raise OutOfSubset("str(%r)" % (args[0].kind,))
     if name == "math.floor":
         nan, x = to_float(args[0])
